@@ -1,1 +1,245 @@
-From PV Require Import C01_Model C01_Proofs.
+(* C01 — aperture masks are the true pixel-overlap fractions of the shape.
+   Property theorems only; each is closed by [exact] of a lemma of C01_Proofs.
+
+   Notation.  Real scalars are rationals (every double is one).  A box [b] holds the pixels
+   (y, x) with iymin <= y < iymax, ixmin <= x < ixmax ([in_box]); pixel i spans [i-1/2, i+1/2].
+   [inside sh x y] is the strict test in the innermost loop of the _overlap_single_subpixel kernels
+   for a shape centred on the origin (c, s = the float cos/sin of theta, arbitrary rationals).
+   [single_subpixel] is the kernel loop as written (accumulating x += dx, y += dy); [cell] /
+   [overlap_grid] are the _overlap_grid drivers with their bounding-box, "well within" and "fully
+   outside" fast paths; [mask_counts] is MaskMixin.to_mask for one shape, in units of 1/subpixels^2;
+   [subpix_count], [pixel_count], [cnt_diff] count sub-pixel centres by definition.
+
+   NOT covered by a theorem (partial clause, tested in harness/c01.py only): that the 'exact' kernels of
+   circles and ellipses (sqrt/asin arithmetic) return the true area fraction. *)
+From Coq Require Import ZArith QArith Qround Qabs Qminmax List Bool.
+From PV Require Import lib.Cases C01_Model C01_Proofs.
+Import ListNotations.
+Open Scope Q_scope.
+
+(* ---- 1. BoundingBox.from_float is the smallest integer pixel box containing the float rectangle ---- *)
+Theorem from_float_minimal : forall xmin xmax ymin ymax,
+  let b := from_float xmin xmax ymin ymax in
+  (inject_Z (ixmin b) - half <= xmin /\ xmax <= inject_Z (ixmax b) - half /\
+   inject_Z (iymin b) - half <= ymin /\ ymax <= inject_Z (iymax b) - half) /\
+  (forall a0 a1 c0 c1 : Z,
+     inject_Z a0 - half <= xmin -> xmax <= inject_Z a1 - half ->
+     inject_Z c0 - half <= ymin -> ymax <= inject_Z c1 - half ->
+     (a0 <= ixmin b /\ ixmax b <= a1 /\ c0 <= iymin b /\ iymax b <= c1)%Z).
+Proof. exact from_float_smallest. Qed.
+Print Assumptions from_float_minimal.
+
+(* integer translation of the rectangle translates the box (used by C03) *)
+Theorem from_float_integer_shift : forall xmin xmax ymin ymax (kx ky : Z),
+  from_float (xmin + inject_Z kx) (xmax + inject_Z kx) (ymin + inject_Z ky) (ymax + inject_Z ky)
+  = let b := from_float xmin xmax ymin ymax in
+    mkbox (ixmin b + kx) (ixmax b + kx) (iymin b + ky) (iymax b + ky).
+Proof. exact from_float_shift. Qed.
+Print Assumptions from_float_integer_shift.
+
+(* a rectangle of positive extent never gives an empty box (so apertures never do) *)
+Theorem from_float_nonempty_box : forall xmin xmax ymin ymax,
+  xmin < xmax -> ymin < ymax ->
+  let b := from_float xmin xmax ymin ymax in (ixmin b < ixmax b /\ iymin b < iymax b)%Z.
+Proof. exact from_float_nonempty. Qed.
+Print Assumptions from_float_nonempty_box.
+
+(* ---- 2. get_overlap_slices (with fixes/C01-1 applied: zero-size images give None) ---- *)
+(* None iff box and image share no pixel: every non-empty box, EVERY image shape in Z x Z *)
+Theorem overlap_slices_none_iff : forall (b : box) (ny nx : Z),
+  (ixmin b < ixmax b)%Z -> (iymin b < iymax b)%Z ->
+  (overlap_slices b ny nx = None <-> forall y x, ~ (in_box b y x /\ in_img ny nx y x)).
+Proof. exact overlap_none. Qed.
+Print Assumptions overlap_slices_none_iff.
+
+(* otherwise slices_large enumerates exactly the common pixels, slices_small is the same pixel set
+   minus the box origin, both stay inside the arrays they index, and they are non-empty for a
+   non-empty box (any box, any shape) *)
+Theorem overlap_slices_exact : forall (b : box) ny nx ly0 ly1 lx0 lx1 sy0 sy1 sx0 sx1,
+  overlap_slices b ny nx = Some (((ly0, ly1), (lx0, lx1)), ((sy0, sy1), (sx0, sx1))) ->
+  ((forall y x, (ly0 <= y < ly1 /\ lx0 <= x < lx1) <-> (in_box b y x /\ in_img ny nx y x)) /\
+   sy0 = ly0 - iymin b /\ sy1 = ly1 - iymin b /\ sx0 = lx0 - ixmin b /\ sx1 = lx1 - ixmin b /\
+   0 <= ly0 /\ ly1 <= ny /\ 0 <= lx0 /\ lx1 <= nx /\
+   0 <= sy0 /\ sy1 <= iymax b - iymin b /\ 0 <= sx0 /\ sx1 <= ixmax b - ixmin b /\
+   (ixmin b < ixmax b -> iymin b < iymax b -> ly0 < ly1 /\ lx0 < lx1))%Z.
+Proof. exact overlap_some. Qed.
+Print Assumptions overlap_slices_exact.
+
+(* the empty box (constructible directly, never from an aperture): whatever is returned selects no pixel *)
+Theorem overlap_slices_empty_box : forall (b : box) ny nx ly0 ly1 lx0 lx1 s,
+  (ixmin b = ixmax b \/ iymin b = iymax b)%Z ->
+  overlap_slices b ny nx = Some (((ly0, ly1), (lx0, lx1)), s) ->
+  forall y x, ~ (ly0 <= y < ly1 /\ lx0 <= x < lx1)%Z.
+Proof. exact overlap_empty_box. Qed.
+Print Assumptions overlap_slices_empty_box.
+
+(* ---- 3. union / intersection ---- *)
+Theorem union_is_smallest_box : forall a b,
+  let u := box_union a b in
+  (forall y x, in_box a y x \/ in_box b y x -> in_box u y x) /\
+  (forall c, (ixmin a < ixmax a -> iymin a < iymax a -> ixmin b < ixmax b -> iymin b < iymax b ->
+     (forall y x, in_box a y x \/ in_box b y x -> in_box c y x) ->
+     ixmin c <= ixmin u /\ ixmax u <= ixmax c /\ iymin c <= iymin u /\ iymax u <= iymax c)%Z).
+Proof. exact union_smallest. Qed.
+Print Assumptions union_is_smallest_box.
+
+Theorem intersection_is_common_pixels : forall a b,
+  match box_inter a b with
+  | Some i => forall y x, in_box i y x <-> (in_box a y x /\ in_box b y x)
+  | None => forall y x, ~ (in_box a y x /\ in_box b y x)
+  end.
+Proof. exact intersection_exact. Qed.
+Print Assumptions intersection_is_common_pixels.
+
+(* ---- 4. the grid handed to the kernels has unit pixels aligned with the image pixels ---- *)
+Theorem centered_edges_unit_pixels : forall b px py,
+  (ixmin b < ixmax b)%Z -> (iymin b < iymax b)%Z ->
+  let '(xmin, xmax, ymin, ymax) := centered_edges b px py in
+  (xmax - xmin) / inject_Z (ixmax b - ixmin b) == 1 /\
+  (ymax - ymin) / inject_Z (iymax b - iymin b) == 1 /\
+  xmin == inject_Z (ixmin b) - half - px /\ ymin == inject_Z (iymin b) - half - py.
+Proof. exact centered_edges_unit. Qed.
+Print Assumptions centered_edges_unit_pixels.
+
+(* ---- 5. the sub-pixel loops count exactly the sub-pixel centres strictly inside the shape ---- *)
+(* all three kernels, any pixel rectangle, any subpixels, any (c, s) *)
+Theorem subpixel_is_centre_fraction : forall sh x0 y0 x1 y1 s,
+  single_subpixel sh x0 y0 x1 y1 s = subpix_count sh x0 y0 x1 y1 s.
+Proof. exact single_subpixel_is_count. Qed.
+Print Assumptions subpixel_is_centre_fraction.
+
+(* the centres are the points x0 + (i+1/2)(x1-x0)/s, y0 + (j+1/2)(y1-y0)/s, 0 <= i, j < s *)
+Theorem sub_centres_are_the_cell_centres : forall x0 y0 x1 y1 s p,
+  In p (sub_centres x0 y0 x1 y1 s) <->
+  exists i j, (i < Z.to_nat s)%nat /\ (j < Z.to_nat s)%nat /\
+              p = (sub_coord x0 x1 s i, sub_coord y0 y1 s j).
+Proof. exact in_sub_centres. Qed.
+Print Assumptions sub_centres_are_the_cell_centres.
+
+(* hence 0 <= weight <= 1 *)
+Theorem subpixel_weight_in_unit_interval : forall sh x0 y0 x1 y1 s,
+  (0 <= s -> 0 <= subpix_count sh x0 y0 x1 y1 s <= s * s)%Z.
+Proof. exact subpix_count_range. Qed.
+Print Assumptions subpixel_weight_in_unit_interval.
+
+(* 'center' is 'subpixel' with subpixels = 1 (whatever subpixels was passed), i.e. the pixel-centre test *)
+Theorem center_is_subpixel_one : forall s rect, translate_mode 0 s rect = translate_mode 1 1 rect.
+Proof. exact center_is_subpixel_1_any. Qed.
+Print Assumptions center_is_subpixel_one.
+Theorem subpixel_one_is_centre_test : forall sh x0 y0 x1 y1,
+  subpix_count sh x0 y0 x1 y1 1 =
+  if inside sh (x0 + (x1 - x0) / 2) (y0 + (y1 - y0) / 2) then 1%Z else 0%Z.
+Proof. exact subpix_count_1. Qed.
+Print Assumptions subpixel_one_is_centre_test.
+
+(* rectangles: 'exact' is 'subpixel' with subpixels = 32 *)
+Theorem rectangle_exact_is_subpixel_32 : forall s, translate_mode 2 s true = translate_mode 1 32 true.
+Proof. exact rectangle_exact_is_subpixel_32. Qed.
+Print Assumptions rectangle_exact_is_subpixel_32.
+
+(* ---- 6. the drivers' fast paths never change a weight ---- *)
+(* circle: skipped by the bounding box / d < r - pixel_radius (weight 1) / d >= r + pixel_radius
+   (weight 0), for any pixel_radius >= half the pixel diagonal *)
+Theorem circle_grid_fast_paths_sound : forall r pr dx dy pxmin pymin s,
+  0 <= r -> 0 <= pr -> dx * dx + dy * dy <= 4 * (pr * pr) -> 0 < dx -> 0 < dy -> (0 <= s)%Z ->
+  cell (Circle r) pr dx dy pxmin pymin s
+  = subpix_count (Circle r) pxmin pymin (pxmin + dx) (pymin + dy) s.
+Proof. exact circ_cell_sound. Qed.
+Print Assumptions circle_grid_fast_paths_sound.
+
+(* ellipse: the bounding-circle skip; k = c^2+s^2 is 1 up to float rounding and the hypothesis
+   (checked on every correspondence case by [rot_ok]) only needs k >= (R/(R+dx/2))^2 *)
+Theorem ellipse_grid_skip_sound : forall a b c s_ pr dx dy pxmin pymin s,
+  0 < a -> 0 < b -> 0 < dx -> 0 < dy ->
+  Qmax a b * Qmax a b <= (c * c + s_ * s_) * ((Qmax a b + half * dx) * (Qmax a b + half * dx)) ->
+  Qmax a b * Qmax a b <= (c * c + s_ * s_) * ((Qmax a b + half * dy) * (Qmax a b + half * dy)) ->
+  cell (Ellipse a b c s_) pr dx dy pxmin pymin s
+  = subpix_count (Ellipse a b c s_) pxmin pymin (pxmin + dx) (pymin + dy) s.
+Proof. exact ell_cell_sound. Qed.
+Print Assumptions ellipse_grid_skip_sound.
+
+(* ---- 7. to_mask(center / subpixel): entry [j][i] is the number of sub-pixel centres of image pixel
+        (iymin+j, ixmin+i) strictly inside the shape centred on (px, py) ---- *)
+Theorem mask_is_centre_fraction : forall sh b px py s j i,
+  rot_ok sh = true -> (0 < s)%Z ->
+  (j < Z.to_nat (iymax b - iymin b))%nat -> (i < Z.to_nat (ixmax b - ixmin b))%nat ->
+  nth i (nth j (mask_counts sh b px py s) []) 0%Z
+  = pixel_count sh px py s (iymin b + Z.of_nat j) (ixmin b + Z.of_nat i).
+Proof. exact mask_is_centre_fraction. Qed.
+Print Assumptions mask_is_centre_fraction.
+
+Theorem mask_has_bbox_shape : forall sh b px py s,
+  length (mask_counts sh b px py s) = Z.to_nat (iymax b - iymin b) /\
+  forall row, In row (mask_counts sh b px py s) -> length row = Z.to_nat (ixmax b - ixmin b).
+Proof. exact mask_counts_dims. Qed.
+Print Assumptions mask_has_bbox_shape.
+
+(* ---- 8. annuli: outer minus inner is the centre fraction of outer \ inner and stays in [0,1] ---- *)
+Theorem annulus_inner_contained_in_outer : forall o i,
+  annulus_params o i -> forall x y, inside i x y = true -> inside o x y = true.
+Proof. exact annulus_contained. Qed.
+Print Assumptions annulus_inner_contained_in_outer.
+
+Theorem annulus_is_difference : forall o i b px py s j k,
+  annulus_params o i -> rot_ok o = true -> rot_ok i = true -> (0 < s)%Z ->
+  (j < Z.to_nat (iymax b - iymin b))%nat -> (k < Z.to_nat (ixmax b - ixmin b))%nat ->
+  let e := nth k (nth j (img_sub (mask_counts o b px py s) (mask_counts i b px py s)) []) 0%Z in
+  e = cnt_diff o i (pixel_centres px py s (iymin b + Z.of_nat j) (ixmin b + Z.of_nat k)) /\
+  (0 <= e <= s * s)%Z.
+Proof. exact annulus_mask_entry. Qed.
+Print Assumptions annulus_is_difference.
+
+(* ---- 9. the bounding box contains the shape (and is the smallest such box by theorem 1) ---- *)
+(* every point of the shape is within the exact extents ... *)
+Theorem shape_within_extents : forall sh x y, unit_rot sh -> inside sh x y = true ->
+  x * x <= fst (extents_sq sh) /\ y * y <= snd (extents_sq sh).
+Proof. exact shape_within_extents. Qed.
+Print Assumptions shape_within_extents.
+(* ... hence inside the box computed from any extents (ex, ey) that dominate them *)
+Theorem bbox_contains_shape : forall sh px py ex ey X Y,
+  unit_rot sh -> 0 <= ex -> 0 <= ey ->
+  fst (extents_sq sh) <= ex * ex -> snd (extents_sq sh) <= ey * ey ->
+  inside sh (X - px) (Y - py) = true ->
+  let b := from_float (px - ex) (px + ex) (py - ey) (py + ey) in
+  inject_Z (ixmin b) - half <= X <= inject_Z (ixmax b) - half /\
+  inject_Z (iymin b) - half <= Y <= inject_Z (iymax b) - half.
+Proof. exact bbox_contains_shape. Qed.
+Print Assumptions bbox_contains_shape.
+(* ... and for circles the box is the smallest one containing the open disc *)
+Theorem circle_bbox_partial_minimal : forall r px py (a0 a1 c0 c1 : Z),
+  0 < r ->
+  (forall X Y, inside (Circle r) (X - px) (Y - py) = true ->
+     inject_Z a0 - half <= X <= inject_Z a1 - half /\ inject_Z c0 - half <= Y <= inject_Z c1 - half) ->
+  let b := from_float (px - r) (px + r) (py - r) (py + r) in
+  (a0 <= ixmin b /\ ixmax b <= a1 /\ c0 <= iymin b /\ iymax b <= c1)%Z.
+Proof. exact circle_bbox_minimal. Qed.
+Print Assumptions circle_bbox_partial_minimal.
+
+(* ---- examples: the hypotheses are satisfiable, the statements are not vacuous ---- *)
+Example ex_from_float : from_float (14 # 10) (104 # 10) (16 # 10) (106 # 10) = mkbox 1 11 2 12.
+Proof. vm_compute. reflexivity. Qed.
+Example ex_from_float_edges : from_float (1 # 2) (3 # 2) (-1 # 2) (1 # 2) = mkbox 1 2 0 1.
+Proof. vm_compute. reflexivity. Qed.
+Example ex_overlap_straddle : overlap_slices (mkbox (-1) 2 3 6) 5 4 = Some (((3, 5), (0, 2)), ((0, 2), (1, 3)))%Z.
+Proof. vm_compute. reflexivity. Qed.
+Example ex_overlap_none : overlap_slices (mkbox 4 6 0 2) 5 4 = None.
+Proof. vm_compute. reflexivity. Qed.
+Example ex_overlap_zero_size : overlap_slices (mkbox 0 3 (-1) 2) 0 5 = None.
+Proof. vm_compute. reflexivity. Qed.
+Example ex_rot_ok_circle : rot_ok (Circle (3 # 2)) = true.
+Proof. vm_compute. reflexivity. Qed.
+(* float cos/sin of pi/4: c = s = 0.7071067811865476 *)
+Example ex_rot_ok_ellipse :
+  rot_ok (Ellipse 3 (1 # 2) (6369051672525773 # 9007199254740992) (6369051672525773 # 9007199254740992)) = true.
+Proof. vm_compute. reflexivity. Qed.
+Example ex_unit_rot : unit_rot (Ellipse 2 1 (3 # 5) (4 # 5)) /\ unit_rot (Rect 2 1 (3 # 5) (4 # 5)).
+Proof. cbn. repeat split; try reflexivity; unfold Qlt, Qle, Qeq; vm_compute; (reflexivity || discriminate). Qed.
+Example ex_annulus_params : annulus_params (Ellipse 4 2 (3 # 5) (4 # 5)) (Ellipse 2 1 (3 # 5) (4 # 5)).
+Proof. cbn. repeat split; try reflexivity; unfold Qlt, Qle, Qeq; vm_compute; (reflexivity || discriminate). Qed.
+(* circle r = 3/2 at (1/4, 0), subpixels 2: weights/4 *)
+Example ex_mask : model_mask (Circle (3 # 2)) None (1 # 4) 0 (3 # 2) (3 # 2) 2
+  = (mkbox (-1) 3 (-1) 2, [[1; 4; 3; 0]; [2; 4; 4; 0]; [1; 4; 3; 0]]%Z).
+Proof. vm_compute. reflexivity. Qed.
+Example ex_annulus : snd (model_mask (Circle (3 # 2)) (Some (Circle (1 # 2))) (1 # 4) 0 (3 # 2) (3 # 2) 2)
+  = [[1; 4; 3; 0]; [2; 2; 4; 0]; [1; 4; 3; 0]]%Z.
+Proof. vm_compute. reflexivity. Qed.
